@@ -10,6 +10,10 @@ NA_FILE = os.path.join(ROOT, "props", "not_applicable.json")
 NA = json.load(open(NA_FILE)) if os.path.exists(NA_FILE) else {}
 _PENDING = "machinery for this property is still being built (plan in DESIGN.md section 9); not claimed until its check exists"
 NOT_APPLICABLE = [{"property_id": "C%02d" % i, "reason": NA.get("C%02d" % i, _PENDING)} for i in range(1, 21) if "C%02d" % i not in PROPS]
+# only properties listed in props/ENABLED are claimed (a property being built is not registered half-done)
+ENABLED = [l.strip() for l in open(os.path.join(ROOT, "props", "ENABLED")) if l.strip() and not l.startswith("#")]
+PROPS = {k: v for k, v in PROPS.items() if k in ENABLED}
+NOT_APPLICABLE = [{"property_id": "C%02d" % i, "reason": NA.get("C%02d" % i, _PENDING)} for i in range(1, 21) if "C%02d" % i not in PROPS]
 checks = []
 for pid in sorted(PROPS):
     m = PROPS[pid]['manifest']
